@@ -406,8 +406,10 @@ func runC19(c c19Case) Result {
 			return bad(class, "cli:"+c.Kind+":exit0", "%v (%s) exited with status 0; stderr: %s", c.Args, c.Note, tail(r.Stderr, 200))
 		}
 		if c.Args[0] == "prove" && len(bytes.TrimSpace(r.Stdout)) > 0 {
-			if _, err := parseProofJSON(bytes.TrimSpace(r.Stdout)); err == nil {
-				return bad(class, "prove:proof-on-stdout-despite-failure", "prove failed (exit %d) but wrote a proof to stdout", r.ExitCode)
+			for _, line := range bytes.Split(bytes.TrimSpace(r.Stdout), []byte("\n")) {
+				if _, err := parseProofJSON(bytes.TrimSpace(line)); err == nil {
+					return bad(class, "prove:proof-on-stdout-despite-failure", "prove failed (exit %d) but wrote a proof to stdout", r.ExitCode)
+				}
 			}
 		}
 	case "verify-as-harness":
@@ -507,6 +509,17 @@ func c19FailureCauses(e *c19Env) []c19Case {
 		c.Kind, c.Note = "bad-mode-flag:verify", mf.note
 		c.Args = append([]string{"verify"}, append(append([]string{}, mf.args...), "--keys-file", "$KEYS", "--input-hash", hash)...)
 		c.Stdin = proofJSON
+		out = append(out, c)
+	}
+	// stdin that is not exactly one parameter document: prove must fail and write no proof
+	doc := m.writeDoc(styleHexLower)
+	for _, sh := range []struct{ note, stdin string }{
+		{"empty", ""}, {"whitespace-only", " \n\t\n"}, {"closing-brace-then-document", "}" + doc}, {"closing-bracket", "]"},
+		{"two-documents", doc + "\n" + doc}, {"truncated-document", doc[:len(doc)/2]}, {"document-then-garbage", doc + " x"},
+	} {
+		c := base
+		c.Kind, c.Note = "prove-stdin-shape", sh.note
+		c.Args, c.Stdin = []string{"prove", "--mode", e.mode, "--keys-file", "$KEYS"}, sh.stdin
 		out = append(out, c)
 	}
 	// the mode taken from the MTB_MODE environment variable (no --mode flag): garbage must fail although all else is valid
